@@ -80,7 +80,7 @@ pub fn run(p: &Params, rep: &mut Report) {
         }
     }
     // order axioms on random triples of longer strings
-    let nt = p.size(2000, 100_000);
+    let nt = p.size(20_000, 400_000);
     let big = [0u32, 1, 0x61, 0x62, 0x10000, 0x2FFFF];
     for _ in 0..nt {
         let mk = |rng: &mut Rng| -> Vec<u32> { (0..rng.usize(7)).map(|_| *rng.pick(&big)).collect() };
@@ -127,7 +127,7 @@ pub fn run(p: &Params, rep: &mut Report) {
             }
         }
     }
-    let nr = p.size(10_000 / 16, 500_000 / 16);
+    let nr = p.size(20_000, 400_000);
     for _ in 0..nr {
         let len = 1 + rng.usize(20);
         let mut w: Vec<u32> = (0..len).map(|_| 0x30 + rng.below(10) as u32).collect();
@@ -180,7 +180,7 @@ pub fn run(p: &Params, rep: &mut Report) {
 
     // ---- from_int / to_int round trip
     let mut ints: Vec<i32> = vec![i32::MIN, i32::MIN + 1, -1000, -1, 0, 1, 9, 10, 99, 100, i32::MAX - 1, i32::MAX];
-    let ni = p.size(100_000 / 16, 2_000_000 / 16);
+    let ni = p.size(50_000, 1_000_000);
     for _ in 0..ni {
         ints.push(match rng.below(4) {
             0 => rng.below(1000) as i32,
